@@ -226,11 +226,14 @@ ADAPTER_SHAPE = {
 }
 
 
-def shape_of_con(con, path=()):
+def shape_of_con(con, path=(), text=False):
     core, chain = unwrap(con)
     k = core.kind
     if k == "fixedsized":
-        base = shape_of_con(core.sub, path)  # a byte window around the sub-construct: same value
+        base = shape_of_con(core.sub, path, text)  # a byte window around the sub-construct: same value
+    elif k == "wrapper":
+        # construct's own value wrappers: StringEncoded turns the bytes below it into text, NullStripped strips trailing padding
+        base = shape_of_con(core.sub, path, text or core.cls == "StringEncoded")
     elif k == "struct":
         items = OrderedDict()
         for f in core.fields:
@@ -245,7 +248,7 @@ def shape_of_con(con, path=()):
     elif k in ("int", "tell", "seek", "computed"):
         base = Leaf("int", path)
     elif k in ("bytes", "padding"):
-        base = Leaf("bytes", path)
+        base = Leaf("str" if text else "bytes", path)
     elif k == "str":
         base = Leaf("str", path)
     else:
@@ -293,7 +296,11 @@ LIB_NAMES = {
 
 
 class Interp:
-    def __init__(self, repo, max_depth=60):
+    def __init__(self, repo, max_depth=60, strict=True):
+        """strict: evaluation on model values - whatever cannot be decided is an undecided run (ShapeError), never a guess;
+        strict=False is shape inference on symbolic inputs, where an undecidable filter keeps its element as optional"""
+        self.strict = strict
+        self.cond_raises = []
         self.repo = repo
         self.depth = 0
         self.max_depth = max_depth
@@ -846,6 +853,8 @@ class Interp:
                 for c in g.ifs:
                     t = self.truth(self.eval(c, inner))
                     if t is None:
+                        if self.strict:
+                            raise ShapeError(f"comprehension filter `{short(c, 50)}` is undecidable on the model value")
                         self.note("filter-unknown", short(e, 60), "comprehension filter undecidable; element kept as optional")
                     elif t is False:
                         keep = False
@@ -1315,15 +1324,24 @@ class Interp:
     def branch(self, st, sc, yields):
         """data-dependent if: run both arms on copies and join the results"""
         outcomes = []
-        for arm in (st.body, st.orelse):
+        for i_arm, arm in enumerate((st.body, st.orelse)):
             s2 = sc.child()
             try:
                 self.exec_block(arm, s2, yields)
                 outcomes.append(("fall", s2.vars))
             except _Return as r:
                 outcomes.append(("ret", r.v))
-            except _Raise:
+            except _Raise as ex:
                 outcomes.append(("raise", None))
+                # a raise guarded by a data-dependent test: kept for rules that ask on which inputs it fires
+                owner = sc.owner
+                s_ = sc
+                while s_ is not None:
+                    owner = s_.owner
+                    if isinstance(owner, FuncInfo):
+                        break
+                    s_ = s_.parent
+                self.cond_raises.append({"test": st.test, "scope": sc, "when": i_arm == 0, "where": owner, "what": ex.what})
         rets = [o[1] for o in outcomes if o[0] == "ret"]
         falls = [o[1] for o in outcomes if o[0] == "fall"]
         if rets and not falls:
